@@ -163,13 +163,17 @@ package getty
 //@ ghost var commit_acked bool
 //@ ghost var rollback_acked bool
 //@ ghost var last_send_failed bool
+// acked: the coordinator answered the commit / rollback request with a result code other than Failed;
+// refused: it answered with the result code Failed (a failure answer, not a transport error)
+//@ ghost var commit_refused bool
+//@ ghost var rollback_refused bool
 //@ ghost var commit_xid string
 //@ ghost var rollback_xid string
 //@ ghost var begin_xid string
 //@ func (*GettyRemotingClient).SendSyncRequest
 //@   trusted
 //@   requires client != nil
-//@   modifies ghost.begin_sends, ghost.commit_sends, ghost.rollback_sends, ghost.other_sends, ghost.commit_acked, ghost.rollback_acked, ghost.last_send_failed, ghost.commit_xid, ghost.rollback_xid, ghost.begin_xid
+//@   modifies ghost.begin_sends, ghost.commit_sends, ghost.rollback_sends, ghost.other_sends, ghost.commit_acked, ghost.rollback_acked, ghost.commit_refused, ghost.rollback_refused, ghost.last_send_failed, ghost.commit_xid, ghost.rollback_xid, ghost.begin_xid
 //@   ensures ghost.last_send_failed == (result1 != nil)
 //@   ensures result1 == nil && isT(msg, message.GlobalBeginRequest) ==> ghost.begin_xid == result0.(message.GlobalBeginResponse).Xid
 //@   ensures !(result1 == nil && isT(msg, message.GlobalBeginRequest)) ==> ghost.begin_xid == old(ghost.begin_xid)
@@ -177,8 +181,10 @@ package getty
 //@   ensures ghost.commit_sends == old(ghost.commit_sends) + ite(isT(msg, message.GlobalCommitRequest), 1, 0)
 //@   ensures ghost.rollback_sends == old(ghost.rollback_sends) + ite(isT(msg, message.GlobalRollbackRequest), 1, 0)
 //@   ensures ghost.other_sends == old(ghost.other_sends) + ite(isT(msg, message.GlobalBeginRequest) || isT(msg, message.GlobalCommitRequest) || isT(msg, message.GlobalRollbackRequest), 0, 1)
-//@   ensures ghost.commit_acked == (old(ghost.commit_acked) || (isT(msg, message.GlobalCommitRequest) && result1 == nil))
-//@   ensures ghost.rollback_acked == (old(ghost.rollback_acked) || (isT(msg, message.GlobalRollbackRequest) && result1 == nil))
+//@   ensures ghost.commit_acked == (old(ghost.commit_acked) || (isT(msg, message.GlobalCommitRequest) && result1 == nil && result0.(message.GlobalCommitResponse).ResultCode != message.ResultCodeFailed))
+//@   ensures ghost.rollback_acked == (old(ghost.rollback_acked) || (isT(msg, message.GlobalRollbackRequest) && result1 == nil && result0.(message.GlobalRollbackResponse).ResultCode != message.ResultCodeFailed))
+//@   ensures ghost.commit_refused == (old(ghost.commit_refused) || (isT(msg, message.GlobalCommitRequest) && result1 == nil && result0.(message.GlobalCommitResponse).ResultCode == message.ResultCodeFailed))
+//@   ensures ghost.rollback_refused == (old(ghost.rollback_refused) || (isT(msg, message.GlobalRollbackRequest) && result1 == nil && result0.(message.GlobalRollbackResponse).ResultCode == message.ResultCodeFailed))
 //@   ensures isT(msg, message.GlobalCommitRequest) ==> ghost.commit_xid == msg.(message.GlobalCommitRequest).Xid
 //@   ensures !isT(msg, message.GlobalCommitRequest) ==> ghost.commit_xid == old(ghost.commit_xid)
 //@   ensures isT(msg, message.GlobalRollbackRequest) ==> ghost.rollback_xid == msg.(message.GlobalRollbackRequest).Xid
